@@ -1,8 +1,14 @@
 """Tokenizer helper contracts (C09 prefix purity, C01 tiling of the f-string end token)."""
-from pv.contract import contract, class_fields
+from pv.contract import contract, class_fields, specfn
+from pv.values import VRef
 
-class_fields('FStringNode', quote='str', parentheses_count='int', previous_lines='str', format_spec_count='int',
-             last_string_start_pos='any')
+
+@specfn('top')
+def sp_top(eng, st, lst):
+    """last element of a list"""
+    return eng.elem_value(st.lget(lst.t, st.llen(lst.t) - 1, lst.ek), lst.ek)
+
+class_fields('FStringNode', quote='str', parentheses_count='int', previous_lines='str', format_spec_count='int')
 
 # If an f-string on the stack closes here: the token is the quote, its prefix is the pending prefix plus *only blanks,
 # tabs and form feeds* of the rest of the line (prefix purity), and exactly that text is consumed (tiling).
@@ -31,3 +37,37 @@ contract('parso.python.tokenize._close_fstring_if_necessary',
                                    'len(fstring_stack[k].quote) >= 1 and fstring_stack[k].previous_lines == ""), trigger=lambda k: fstring_stack[k])'],
                         len_stable=True)},
          props=['C09', 'C01'])
+
+# ---- _find_fstring_string: the literal part of an f-string.  Text conservation: what was pending in previous_lines
+# plus the consumed part of the line is either returned or (if it ends in a line break) kept pending; the start position
+# of a literal that spans lines is remembered from its first line.
+class_fields('FStringNode', last_string_start_pos='opt:pos')
+contract('parso.python.tokenize.FStringNode.allow_multiline', params={'self': 'ref:FStringNode'}, returns='bool',
+         ensures=['result == (len(self.quote) == 3)'], props=['C01'])
+contract('parso.python.tokenize.FStringNode.is_in_format_spec', params={'self': 'ref:FStringNode'}, returns='bool',
+         trusted=True, ensures=[], lists=[], note='only its truth value selects a pattern; any result is allowed for')
+
+QUOTES_KNOWN = ('forall(lambda k: implies(0 <= k and k < len(fstring_stack), fstring_stack[k] is not None and '
+                'fstring_stack[k].quote in endpats and endpats[fstring_stack[k].quote] is not None and '
+                'len(fstring_stack[k].quote) >= 1), trigger=lambda k: fstring_stack[k])')
+contract('parso.python.tokenize._find_fstring_string',
+         params={'endpats': 'map:str:ref:re.Pattern', 'fstring_stack': 'list:ref:FStringNode', 'line': 'str', 'lnum': 'int', 'pos': 'int'},
+         returns='tuple:str,int',
+         requires=['len(fstring_stack) >= 1', '0 <= pos and pos <= len(line)', QUOTES_KNOWN],
+         ensures=['pos <= result[1] and result[1] <= len(line)',
+                  # conservation of text
+                  '(result[0] == "" and top(fstring_stack).previous_lines == old(top(fstring_stack).previous_lines) + line[pos:result[1]]) or '
+                  '(result[0] == old(top(fstring_stack).previous_lines) + line[pos:result[1]] and '
+                  'top(fstring_stack).previous_lines == old(top(fstring_stack).previous_lines))',
+                  # a literal that continues from earlier lines keeps the start position of its first line
+                  'implies(old(top(fstring_stack).previous_lines) != "", '
+                  'top(fstring_stack).last_string_start_pos == old(top(fstring_stack).last_string_start_pos))',
+                  'implies(old(top(fstring_stack).previous_lines) == "" and result[1] > pos, '
+                  'top(fstring_stack).last_string_start_pos == (lnum, pos))'],
+         raises=[],
+         loops={0: dict(invariant=['string == line[pos:pos + len(string)]', 'pos + len(string) <= len(line)',
+                                   'tos is top(fstring_stack)', QUOTES_KNOWN,
+                                   'tos.previous_lines == old(top(fstring_stack).previous_lines)',
+                                   'implies(old(top(fstring_stack).previous_lines) != "", tos.last_string_start_pos == old(top(fstring_stack).last_string_start_pos))',
+                                   'implies(old(top(fstring_stack).previous_lines) == "", tos.last_string_start_pos == (lnum, pos))'])},
+         props=['C01', 'C03', 'C09'])
